@@ -384,7 +384,7 @@ func (r *relay) updateWindow(f *http2.WindowUpdateFrame) {
 	r.flowMu.Lock()
 	w := r.outputBuffer(f.StreamID)
 	w.windowSize += int(f.Increment)
-	w.emitEligibleFrames(r.output, r.writerDone, &r.connectionWindowSize)
+	w.emitEligibleFrames(r.output, r.writerDone, &r.connectionWindowSize, int(atomic.LoadUint32(&r.maxFrameSize)))
 	r.flowMu.Unlock()
 }
 
@@ -413,7 +413,7 @@ func (r *relay) data(id uint32, data []byte, streamEnded bool) error {
 
 		r.flowMu.Lock()
 		w.enqueue(f)
-		w.emitEligibleFrames(r.output, r.writerDone, &r.connectionWindowSize)
+		w.emitEligibleFrames(r.output, r.writerDone, &r.connectionWindowSize, int(atomic.LoadUint32(&r.maxFrameSize)))
 		r.flowMu.Unlock()
 
 		// Some protocols send empty data frames with END_STREAM so the check is done here at the end
@@ -492,14 +492,14 @@ func (r *relay) enqueueFrame(f queuedFrame) {
 	r.flowMu.Lock()
 	w := r.outputBuffer(f.StreamID())
 	w.enqueue(f)
-	w.emitEligibleFrames(r.output, r.writerDone, &r.connectionWindowSize)
+	w.emitEligibleFrames(r.output, r.writerDone, &r.connectionWindowSize, int(atomic.LoadUint32(&r.maxFrameSize)))
 	r.flowMu.Unlock()
 }
 
 func (r *relay) sendQueuedFramesUnderWindowSize() {
 	r.flowMu.Lock()
 	for _, w := range r.outputBuffers {
-		w.emitEligibleFrames(r.output, r.writerDone, &r.connectionWindowSize)
+		w.emitEligibleFrames(r.output, r.writerDone, &r.connectionWindowSize, int(atomic.LoadUint32(&r.maxFrameSize)))
 	}
 	r.flowMu.Unlock()
 }
@@ -578,10 +578,33 @@ type outputBuffer struct {
 // given connection window size. It updates the given connectionWindowSize if applicable.
 //
 // This is not thread-safe. The caller should be holding `relay.flowMu`.
-func (w *outputBuffer) emitEligibleFrames(output chan queuedFrame, writerDone chan struct{}, connectionWindowSize *int) {
+func (w *outputBuffer) emitEligibleFrames(output chan queuedFrame, writerDone chan struct{}, connectionWindowSize *int, maxFrameSize int) {
 	for e := w.queue.Front(); e != nil; {
 		f := e.Value.(queuedFrame)
-		if f.flowControlSize() > *connectionWindowSize || f.flowControlSize() > w.windowSize {
+		remove := true
+		if d, ok := f.(*queuedDataFrame); ok && len(d.data) > 0 {
+			// As any HTTP/2 sender, the relay sends as much of the data as the windows and the
+			// receiver's current maximum frame size (it may have been lowered since the frame
+			// was queued) admit, and keeps the rest.
+			room := len(d.data)
+			if room > *connectionWindowSize {
+				room = *connectionWindowSize
+			}
+			if room > w.windowSize {
+				room = w.windowSize
+			}
+			if room > maxFrameSize {
+				room = maxFrameSize
+			}
+			if room <= 0 {
+				break
+			}
+			if room < len(d.data) {
+				f = &queuedDataFrame{d.streamID, false, d.data[:room]}
+				d.data = d.data[room:]
+				remove = false
+			}
+		} else if f.flowControlSize() > *connectionWindowSize || f.flowControlSize() > w.windowSize {
 			break
 		}
 		select {
@@ -595,9 +618,11 @@ func (w *outputBuffer) emitEligibleFrames(output chan queuedFrame, writerDone ch
 		*connectionWindowSize -= f.flowControlSize()
 		w.windowSize -= f.flowControlSize()
 
-		next := e.Next()
-		w.queue.Remove(e)
-		e = next
+		if remove {
+			next := e.Next()
+			w.queue.Remove(e)
+			e = next
+		}
 	}
 }
 
